@@ -113,6 +113,9 @@ fn scenario(ctx: &Ctx, idx: u64) -> Report {
         let owned: HashSet<_> = nodes.iter().map(|n| n.addr).collect();
         let mut world = World::new(nodes);
         world.keep_served = false;
+        // contacts whose (well-formed) answers carry adversarial node lists: one id under several
+        // addresses, one address under several ids, extreme ids
+        world.hostile_lists = *[0.0, 0.0, 0.0, 0.5].choose(&mut rng).unwrap();
         net.add_actor(move |a| owned.contains(a), world);
 
         // ---- outage pattern: unreachable windows, the last one ends at t_up
